@@ -49,51 +49,64 @@ FAMILIES = {
 }
 
 
-def leaves(x, env, acc):
-    if x["op"] == "x":
-        acc.append(env[x["i"] - 1])
-    else:
-        for a in x["a"]:
-            leaves(a, env, acc)
-    return acc
-
-
-def num(v):
-    if v.get("t") != "num" or v["ns"] not in (1, -1, 0):
-        return None
-    if v["ns"] == 0:
-        return 0
-    d = int("".join(map(str, v["nd"])))
-    return v["ns"] * d * 10.0 ** (v["nx"] - len(v["nd"]))
-
-
 def classify(ev):
-    """families of recorded findings syntactically present in the rejected expression"""
-    fams = set()
+    """recorded findings whose exact expression shape occurs in the rejected expression"""
+    from valuesutil import nodes, evalx, num, chain, inexact_product
+    from decimal import Decimal, localcontext
+    env = ev["env"]
 
-    def walk(x):
-        if x["op"] == "x":
-            return
-        for a in x["a"]:
-            walk(a)
-        ls = leaves(x, ev["env"], [])
+    def val(x):
+        return evalx(x, lambda i: env[i - 1])
+
+    def isint(d):
+        return d is not None and d.is_finite() and d == d.to_integral_value()
+    fams = set()
+    for x in nodes(ev["x"]):
         op = x["op"]
-        # an operand that is the absorbing constant, or a sub-expression that may fold to it
-        sub = any(a["op"] != "x" for a in x["a"])
-        if op in ("and", "or") and (sub or any(v.get("t") == "bool" and v["b"] == (op == "or") for v in ls)):
+        if op == "x":
+            continue
+        vals = [val(a) for a in x["a"]]
+        nums = [num(v) for v in vals]
+        # an operand that is (or folds to) the absorbing constant of the operator
+        if op in ("and", "or") and any(v is not None and v["t"] == "bool" and v["b"] == (op == "or") for v in vals):
             fams.add("fold-absorbing-shortcut")
-        if op in ("mul", "bitand") and (sub or any(num(v) == 0 for v in ls)):
+        if op in ("mul", "bitand") and any(d is not None and d == 0 for d in nums):
             fams.add("fold-absorbing-shortcut")
-        if op in ("bitor", "bitand") and any(num(v) is not None and (num(v) < 0 or num(v) >= 4294967295) for v in ls):
+        if op == "bitor" and any(d is not None and d == 4294967295 for d in nums):
+            fams.add("fold-absorbing-shortcut")
+        # & | with an integer operand that does not fit 32 bits unsigned
+        if op in ("bitand", "bitor") and any(isint(d) and (d < 0 or d > 4294967295) for d in nums):
             fams.add("fold-bits-32bit-allones")
-            fams.add("fold-absorbing-shortcut")
-        if op == "div":
-            fams.add("fold-const-div-var-reciprocal")
-        if op in ("mul", "div") and len(ls) >= 3 and any(a["op"] == "div" for a in [x] + [c for c in x["a"] if c["op"] != "x"]):
-            fams.add("fold-inexact-constant-quotient")
-        if op in ("add", "sub") and len(ls) >= 3 and any(v.get("t") == "num" and v["ns"] in (1, -1) and v["nx"] >= 17 for v in ls):
-            fams.add("fold-reassociation-absorbs-small-term")
-    walk(ev["x"])
+        if op in ("mul", "div"):
+            ch = [(role, num(val(o))) for role, o in chain(x, ("mul", "div"))]
+            muls = [d for role, d in ch if role == "mul" and d is not None and d.is_finite()]
+            divs = [d for role, d in ch if role == "div" and d is not None and d.is_finite() and d != 0]
+            if any(d == 0 for d in muls):      # 0 * x, 0 / x
+                fams.add("fold-absorbing-shortcut")
+            with localcontext() as c:
+                c.prec = 16
+                # constant / x evaluated as (1 / x) * constant
+                # (the constant is the folded product / quotient of any of the other constants)
+                from itertools import combinations
+                for k, d in enumerate(divs):
+                    rest = [("m", m) for m in muls] + [("d", o) for j, o in enumerate(divs) if j != k]
+                    for r in range(1, len(rest) + 1):
+                        for sub in combinations(rest, r):
+                            if not any(t == "m" for t, _ in sub):
+                                continue
+                            cst = Decimal(1)
+                            for t, v in sub:
+                                cst = cst * v if t == "m" else cst / v
+                            if (Decimal(1) / d) * cst != cst / d:
+                                fams.add("fold-const-div-var-reciprocal")
+            # x * m / d with the constants divided first
+            if any(inexact_product(m, d) for m in muls for d in divs):
+                fams.add("fold-inexact-constant-quotient")
+        if op in ("add", "sub"):
+            ds = [num(val(o)) for role, o in chain(x, ("add", "sub"))]
+            ds = [d for d in ds if d is not None and d.is_finite() and d != 0]
+            if len(ds) >= 2 and max(d.adjusted() for d in ds) - min(d.adjusted() for d in ds) >= 16:
+                fams.add("fold-reassociation-absorbs-small-term")
     return fams
 
 
@@ -171,10 +184,19 @@ def run(ctx):
                     f.write(lines[ln - 1] + "\n")
             ln, ev, fams = unknown[0]
             forms = {k: ev[k]["k"] + ":" + (ev[k]["c"] or json.dumps(ev[k]["v"])[:60]) for k in ("lit", "par", "prop", "nf")}
-            what = "%d generated expressions change meaning when folded, first: %s  %s mix=%s extra=%s se=%s (candidate families: %s)" % (
-                len(unknown), ev["src"], forms,
-                [m["r"]["k"] + ":" + m["r"]["c"] for m in ev["mix"]], [m["form"] + "=" + m["r"]["k"] for m in ev["extra"]],
-                [(m["r"]["k"], m["ev"]) for m in ev["se"]], sorted(fams) or "none")
+            def rs(r):
+                return r["k"] + ":" + (r["c"] or json.dumps(r["v"], separators=(",", ":"))[:60])
+            # forms whose outcome differs from the all-parameter (run-time) form, over all rejected expressions
+            dev = {}
+            for _, e2, _ in unknown:
+                for name, r in [("lit", e2["lit"]), ("prop", e2["prop"]), ("nf", e2["nf"])] + \
+                        [("mix", m["r"]) for m in e2["mix"]] + [(m["form"], m["r"]) for m in e2["extra"]] + [("se", m["r"]) for m in e2["se"]]:
+                    if r["k"] != "ce" and rs(r) != rs(e2["par"]):
+                        dev[name] = dev.get(name, 0) + 1
+            what = "%d generated expressions change meaning when folded / propagated (forms deviating from the run-time form: %s), first: %s  %s mix=%s extra=%s se=%s (recorded-finding shapes present: %s)" % (
+                len(unknown), dev or "none: par itself differs from Eval", ev["src"], forms,
+                [rs(m["r"]) for m in ev["mix"]], [m["form"] + "=" + rs(m["r"]) for m in ev["extra"]],
+                [(rs(m["r"]), m["ev"]) for m in ev["se"]], sorted(fams) or "none")
             ctx.report_rejection(rep, {"line": 1}, what=what)
             return
 
